@@ -2,7 +2,11 @@
 """C19 — text importers (CSV, LibSVM): proofs (Properties_C19.v) + correspondence of the extracted byte-level
 model with the freshly compiled importers on generated files (exact on the numeric forms on which Boost.Spirit
 and the model's lexer provably agree; exporters incl. exportSparseData: exported text byte for byte, re-imported dataset line-exact) + spec monitor (well-formedness / exception type / crash / hang /
-export-import round trip) on every overload, also under ASan+UBSan."""
+export-import round trip) on every overload, also under ASan+UBSan.
+Every import of the harness goes into a fresh dataset object AND into one that already holds an earlier import (same overload); both
+must agree (REUSE-DIFF otherwise).  Batch sizes are 64-bit: {1, 2, n-1, n, n+1, 2^31, 2^32+1, 2^63, SIZE_MAX-1, SIZE_MAX, ...} on every
+importer stream; the model takes them as binary numbers (cap at records+1 inside the model, proved neutral); optimalBatchSizes and
+initializeBatches are also called directly (OBS/OBI) against their size_t-arithmetic models opt_sizes64 / init_sizes64."""
 import os, sys, re, struct, signal
 sys.path.insert(0, os.path.dirname(os.path.abspath(__file__)))
 from vlib import *
@@ -147,7 +151,8 @@ def gen_svm(rng, big=False, defect=None):
     hi = rng.choice([0, 0, 0, top, top + 3, max(top - 1, 0)]) if top < 200000 else 0
     bs = pick_batch(rng, nrow, [0, 1, 2, 3, 256], zero_ok=True)
     if defect == "empty" or (defect is None and rng.random() < 0.03): text = rng.choice(["", "\n", "\n\n\n"])
-    return ["SVM", variant, prec, store, str(hi), str(bs), rng.choice("sf")], text.encode("latin1")
+    # S|F: the deprecated import_libsvm wrappers of Libsvm.h (they exist for classification data in double precision only)
+    return ["SVM", variant, prec, store, str(hi), str(bs), rng.choice("sfSF" if variant == "cls" and prec == "d" else "sf")], text.encode("latin1")
 
 ALPHA = b"0123456789.,;-+eE? \t\r\n#:x|naif%"
 def mutate(rng, b, alpha=ALPHA, n=None):
@@ -202,7 +207,8 @@ def gen_value(rng, prec):
 
 def gen_xcsv(rng):
     variant = rng.choice(["data", "cls", "reg"]); prec = rng.choice("df"); lp = rng.choice("FL")
-    sep = rng.choice([",", ";", " ", " ", "\t", "\t", "|", ":", "\x0b", "\x0c"]); nout = rng.randint(1, 3)
+    sep = rng.choice([",", ";", " ", " ", "\t", "\t", "|", ":", "\x0b", "\x0c"] + list(XSEPS)); nout = rng.randint(1, 3)
+    if variant == "cls" and sep == ".": sep = "|"       # '.' between a label and a number is outside the domain (cls_sep_ok)
     nrow = rng.randint(1, 8); ncol = rng.randint(1, 5)
     mb = pick_batch(rng, nrow, [1, 2, 3, 256])
     zero_label = rng.random() < 0.9
@@ -215,7 +221,21 @@ def gen_xcsv(rng):
         elif variant == "reg": l = ",".join("%.10e" % gen_value(rng, prec) for _ in range(nout))
         else: l = ""
         rows.append(l + "|" + ",".join(vals))
-    return " ".join(["XCSV", variant, prec, lp, str(nout), str(ord(sep)), str(mb), rng.choice("sf"), ";".join(rows)])
+    return " ".join(["XCSV", variant, prec, lp, str(nout), str(ord(sep)), str(mb), rng.choice("sfsfSF"), ";".join(rows)])
+
+# separators that are special characters in regular expressions / format strings (both label positions); '.', '+', '?' are
+# characters of numbers resp. the missing-value mark and still legal separators for the printed scientific tokens
+XSEPS = "|*()[]\\^${}/!&~\"'<>=@_`.+?"
+
+def gen_xint(rng):
+    """exportCSV of Data<IntVector> / Data<UIntVector>; the text is re-imported as Data<RealVector> and as Data<int|unsigned>"""
+    ty = rng.choice("iu"); sep = rng.choice([",", ";", " ", " ", "\t", "|", "\x0b", ":"]); nrow = rng.randint(1, 8); ncol = rng.choice([1, 1, 2, 3, 5])
+    mb = pick_batch(rng, nrow, [1, 2, 3, 256])
+    def val():
+        if ty == "u": return rng.choice([rng.randint(0, 99), rng.randint(0, 4294967295), 4294967295, 0])
+        return rng.choice([rng.randint(-99, 99), rng.randint(-2147483648, 2147483647), 2147483647, -2147483648, 0])
+    rows = ["|" + ",".join(str(val()) for _ in range(ncol)) for _ in range(nrow)]
+    return " ".join(["XINT", ty, str(ord(sep)), str(mb), rng.choice("sf"), ";".join(rows)])
 
 def gen_xsvm(rng):
     variant = rng.choice(["cls", "reg"]); store = rng.choice("vc")
@@ -264,6 +284,7 @@ def monitor_line(case, o):
     t = case.split(" "); kind = t[0]
     if kind in ("XCSV", "XSVM"): return monitor_roundtrip(t, o)
     if kind in ("OBS", "OBI"): return monitor_sizes(t, o)
+    if kind == "XINT": return monitor_xint(t, o)
     site = {"CSV": "csv:" + t[1], "SCL": "csv:scalar-" + t[1], "SVM": "svm:" + t[1] + ":" + ("dense" if t[3] == "v" else "compressed") if kind == "SVM" else ""}[kind]
     if o == "EXC": return []
     if o.startswith("REUSE-DIFF"):
@@ -323,6 +344,30 @@ def monitor_sizes(t, o):
         want = [n] if m == 0 or m > n else [m] * ((n + m - 1) // m - 1) + [n - ((n + m - 1) // m - 1) * m]
         if s != want: return [(site + ":sizes", "Data(%d, element, %d) has batches %s" % (n, m, s[:12]))]
     return []
+
+def monitor_xint(t, o):
+    """integer-valued vectors written by exportCSV: the vector importer returns every value; the scalar importer returns the
+    values in reading order whenever it accepts the text, and accepts it when the separator is white space or there is one column"""
+    site = "csv-export:int-" + t[1]
+    parts = o.split(" ## ")
+    if len(parts) != 3 or not parts[0].startswith("XI text="):
+        return [(site + ":failed", "export of an integer dataset did not succeed: %s" % o[:80])]
+    rows = [[int(x) for x in r.split("|")[1].split(",")] for r in t[-1].split(";")]
+    flat = [x for r in rows for x in r]
+    sep = chr(int(t[2])); bad = []
+    for name, part, want in (("vector", parts[1], rows), ("scalar", parts[2], [[x] for x in flat])):
+        if part.startswith("REUSE-DIFF"):
+            bad.append((site + ":reused-target", "re-import (%s importer) into a dataset that already holds data differs from the import into a fresh object: %s" % (name, part[:200]))); continue
+        if part == "EXC":
+            if name == "vector" or sep in " \t\x0b\x0c" or len(rows[0]) == 1:
+                bad.append((site + ":reimport-failed", "the %s importer rejects the exported text" % name))
+            continue
+        if not part.startswith("OK "): bad.append((site + ":foreign-exception", "%s importer: %s" % (name, part[:60]))); continue
+        d = parse_ok(part); recs = d["E"].split(";") if d["E"] else []
+        got = [[hexval(h) for h in r.split("|")[1].split(",")] for r in recs]
+        if got != [[float(x) for x in r] for r in want]:
+            bad.append((site + ":values", "%s importer reads %s back as %s" % (name, want[:4], got[:4])))
+    return bad
 
 def monitor_roundtrip(t, o):
     kind = t[0]
@@ -416,7 +461,9 @@ def main():
         "token <-> double conversion is outside the Coq model: the OCaml driver uses float_of_string (correctly rounded); generated numbers have <= 15 significant digits and |decimal exponent| <= 22 so that Spirit's double_ performs one correctly rounded operation",
         "Boost.Spirit (the grammars are transcribed by hand into the model; the transcription is what the correspondence check tests), libstdc++ iostreams, AddressSanitizer/UBSan runtime"]
     ck.assumptions = [
-        "maximumBatchSize >= 1 for the CSV importers (0 divides by zero in optimalBatchSizes: outside the domain, the model says Fault)",
+        "maximumBatchSize >= 1 for the CSV importers (0 divides by zero in optimalBatchSizes: outside the domain, the model says Fault); every value 1..SIZE_MAX is inside the domain and is generated",
+        "std::size_t is 64 bit (static_assert in the harness); the number of records of a file is below 2^64",
+        "the target dataset of an import is an arbitrary object of the overload's type; the harness uses a fresh one and one filled by an earlier import of three records in two batches through the same overload",
         "numbers whose decimal exponent leaves the range of the target type (|e| > ~300 for double_, > ~30 for float_) are outside the exact comparison: Spirit's scale() fails there and the verdict is only monitored",
         "separator and comment character are not characters of a number ([0-9+-.eE?] and letters of nan/inf), not a line end, and differ from each other",
         "round trip: finite values; exported numbers are compared as printed tokens in the theorem and as doubles by the monitor; class labels below 2^31, feature indices below 2^32 - 1; CSV classification files: the separator is not '.'",
@@ -441,7 +488,7 @@ def main():
         cases.append((case_line(head, payload), "monitor" if force == "monitor" or lvl == "monitor" else (force or lvl)))
     def mode_of_line(l):
         t = l.split(" ")
-        if t[0][0] == "X": return "roundtrip"
+        if t[0] in ("XCSV", "XSVM"): return "roundtrip"
         need = {"CSV": 10, "SCL": 6, "SVM": 8}.get(t[0], 99)     # OBS/OBI: no payload -> exact
         pay = bytes.fromhex(t[-1]) if len(t) >= need and re.fullmatch(r"(?:[0-9a-f]{2})*", t[-1]) else b""
         return exactness(pay, 30 if t[:2] == ["SCL", "f"] else 290)
@@ -472,7 +519,8 @@ def main():
             add(h, noise(rng) if rng.random() < 0.6 else mutate(rng, (gen_csv(rng)[1] if h[0] != "SVM" else gen_svm(rng)[1]), bytes(range(256)), 6), "monitor")
         for _ in range(200 * scale): cases.append((gen_obs(rng), "exact"))
         for _ in range(80 * scale): cases.append((gen_obi(rng), "exact"))
-        for _ in range(250 * scale): cases.append((gen_xcsv(rng), "roundtrip"))
+        for _ in range(100 * scale): cases.append((gen_xint(rng), "exact"))
+        for _ in range(300 * scale): cases.append((gen_xcsv(rng), "roundtrip"))
         for _ in range(300 * scale): cases.append((gen_xsvm(rng), "roundtrip"))
 
     lines = [c for c, _ in cases]
@@ -503,7 +551,7 @@ def main():
     for i, ((line, mode), (m_o, _, _), (i_o, rc, err)) in enumerate(zip(cases, mo, io)):
         t = line.split(" ")
         site = {"CSV": "csv:" + t[1], "SCL": "csv:scalar-" + t[1], "SVM": "svm:" + t[1] + ":" + ("dense" if len(t) > 3 and t[3] == "v" else "compressed"),
-                "XCSV": "csv-export:" + t[1], "XSVM": "svm-export:" + t[1], "OBS": "batch:optimalBatchSizes", "OBI": "batch:initializeBatches"}[t[0]]
+                "XCSV": "csv-export:" + t[1], "XSVM": "svm-export:" + t[1], "OBS": "batch:optimalBatchSizes", "OBI": "batch:initializeBatches", "XINT": "csv-export:int-" + t[1]}[t[0]]
         shape = ""
         if t[0] == "SVM":
             c = svm_input_class(bytes.fromhex(t[7]) if len(t) > 7 else b"")
@@ -584,10 +632,11 @@ def main():
     if disagreements:
         log("disagreements: %d" % len(disagreements))
         for i in disagreements[:8]: log("  case: %s\n   model: %s\n   impl:  %s" % (cases[i][0][:300], mo[i][0][:300], io[i][0][:300]))
-    ck.oblige("correspondence C19Model (csv_import_*, svm_import_*, export_*, export_svm_*) = shark importers/exporters on %d files (%d exact, %d value-masked; %d of them LibSVM export->import)" % (n_exact + n_masked + n_rt, n_exact + n_rt, n_masked, n_xsvm),
+    ck.oblige("correspondence C19Model/C19BigBatch (csv_import_*_into, svm_import_*_into with 64-bit batch sizes, export_*, export_svm_*, crlf, opt_sizes64, init_sizes64) = shark importers/exporters/batch-size routines on %d cases (%d exact, %d value-masked; %d of them LibSVM export->import)" % (n_exact + n_masked + n_rt, n_exact + n_rt, n_masked, n_xsvm),
               not disagreements, "%d disagreements, first: %s" % (len(disagreements), cases[disagreements[0]][0][:160]) if disagreements else "")
     unknown = [k for k in sorted(found) if ck.match_known(k) is None]     # recorded findings do not fail the obligation
-    ck.oblige("spec monitor (well-formed dataset or shark::Exception, no crash/hang/foreign exception, round trip) on %d cases" % len(cases), not unknown,
+    n_reuse = sum(1 for c, m in cases if c.split(" ")[0] in ("CSV", "SCL", "SVM", "XCSV", "XSVM", "XINT"))
+    ck.oblige("spec monitor (well-formed dataset or shark::Exception, no crash/hang/foreign exception, round trip, fresh target == reused target on %d imports) on %d cases" % (n_reuse, len(cases)), not unknown,
               "; ".join(unknown)[:280])
     if asan_out is not None:
         ck.oblige("ASan+UBSan run of %d cases without report (outside recorded findings)" % len(asan_out), not any(k.endswith(("memory-error", "crash", "hang")) for k in unknown),
@@ -598,13 +647,14 @@ def main():
     for c, m in cases: kinds[c.split(" ")[0] + ":" + m] = kinds.get(c.split(" ")[0] + ":" + m, 0) + 1
     verdicts = {"OK": 0, "EXC": 0, "other": 0}
     for (o, rc, e) in io:
-        k = "OK" if o and (o.startswith("OK ") or o.startswith("X text=")) else "EXC" if o == "EXC" else "other"
+        k = "OK" if o and o.startswith(("OK ", "X text=", "XI text=", "S")) and not o.startswith("STDEXC") else "EXC" if o == "EXC" else "other"
         verdicts[k] += 1
     ck.cov["evaluations"] = len(cases) + (len(asan_out) if asan_out else 0)
     ck.cov["distinct_nontrivial"] = len(set(c for c, m in cases if len(c.split(" ")[-1]) >= 12))
-    ck.cov["rule"] = ("generated CSV / scalar / LibSVM files (all overloads: data|cls|reg x double|float x label first|last x 6 separators x 2 comment chars x batch sizes 1..256 x string|file; "
-                      "LibSVM cls|reg x double|float x dense|compressed x highestIndex x batchSize 0..256) with missing values, comments, mixed line ends, ragged rows, special tokens, "
-                      "their 1-3 byte mutations, byte noise, and export->import round trips (CSV: 8 separators incl. blank/tab/VT/FF, label first|last; LibSVM: dense|compressed x cls|reg, model export_svm_* vs exportSparseData); non-trivial = payload of at least 6 bytes; distinct = distinct case lines; "
+    ck.cov["rule"] = ("generated CSV / scalar / LibSVM files (all overloads: data|cls|reg x double|float x label first|last x 6 separators x 2 comment chars x string|file; scalar Data<int|unsigned|float|double> x string|file; "
+                      "LibSVM cls|reg x double|float x dense|compressed x highestIndex x stream|file, plus the import_libsvm wrappers) with missing values, comments, mixed line ends, ragged rows, special tokens, record-free inputs (empty, blank, comment-only), "
+                      "batch sizes {small, 1, 2, n-1, n, n+1, 2^31, 2^32+1, 2^63, SIZE_MAX-1, SIZE_MAX, SIZE_MAX-n+1, SIZE_MAX-n+2} on every importer stream, every import into a fresh and into a pre-filled target, "
+                      "their 1-3 byte mutations, byte noise, direct calls of optimalBatchSizes / initializeBatches with 64-bit arguments, and export->import round trips (CSV: 36 separators incl. blank/tab/VT/FF and | * ( ) [ ] \\ ^ $ { } . + ?, label first|last, LF and CR LF line ends; integer vectors read back by the vector and the scalar importers; LibSVM: dense|compressed x cls|reg, model export_svm_* vs exportSparseData); non-trivial = payload of at least 6 bytes; distinct = distinct case lines; "
                       "every case runs in the -O2 build, a third plus all LibSVM/noise cases (thorough: all) also under ASan+UBSan")
     ck.cov["samples"] = [cases[0][0][:200], cases[len(cases) // 2][0][:200]]
     ck.notes["libsvm_roundtrip_levels"] = xsvm_levels
